@@ -1304,6 +1304,11 @@ class Interp(object):
         if isinstance(n, ast.Subscript):
             obj = self.ev(n.value, scope, func)
             return self.subscript(obj, n.slice, scope, func)
+        if isinstance(n, ast.Slice):
+            return slice(
+                self.ev(n.lower, scope, func) if n.lower else None,
+                self.ev(n.upper, scope, func) if n.upper else None,
+                self.ev(n.step, scope, func) if n.step else None)
         if isinstance(n, ast.Lambda):
             return Func(n, scope, func.ci if func else None)
         if isinstance(n, (ast.ListComp, ast.GeneratorExp, ast.SetComp)):
@@ -1374,6 +1379,12 @@ class Interp(object):
                 self.ev(sl.lower, scope, func) if sl.lower else None,
                 self.ev(sl.upper, scope, func) if sl.upper else None,
                 self.ev(sl.step, scope, func) if sl.step else None)
+        if self.hooks is not None:
+            r = self.hooks.on_subscript(self, obj, idx)
+            if r is not NotImplemented:
+                return r
+        if isinstance(obj, Opaque):
+            return Opaque(obj.desc + '[]')
         if isinstance(obj, Rec) and callable(obj.attrs.get('__getitem__')):
             return obj.attrs['__getitem__'](idx)
         if isinstance(obj, SArr):
@@ -1502,6 +1513,11 @@ class Interp(object):
             res = self.hooks.on_binop(self, op, l, r)
             if res is not NotImplemented:
                 return res
+        if (isinstance(l, Opaque) and (is_scalar(r) or isinstance(
+                r, Opaque))) or (isinstance(r, Opaque) and is_scalar(l)):
+            if not ((isinstance(l, Opaque) and l.desc == 'np.nan') or (
+                    isinstance(r, Opaque) and r.desc == 'np.nan')):
+                return Opaque('arith')
         for o in (l, r):
             if isinstance(o, Opaque) and o.desc in ('np.nan',) and (
                     is_scalar(l) or is_scalar(r) or (
@@ -1609,6 +1625,9 @@ class Interp(object):
         if isinstance(l, (list, tuple)) and isinstance(r, int) and \
                 op is ast.Mult:
             return l * r
+        if isinstance(r, (list, tuple)) and isinstance(l, int) and \
+                op is ast.Mult:
+            return r * l
         if isinstance(l, str) and op is ast.Mod:
             return l
         raise Undecided('operator %s on %r, %r' % (op.__name__, l, r))
@@ -1784,6 +1803,16 @@ class Interp(object):
             return all(self.truth_value(v) for v in args[0])
         if name == 'any':
             return any(self.truth_value(v) for v in args[0])
+        if name in ('max', 'min') and len(args) >= 1:
+            vals_ = args[0] if len(args) == 1 else args
+            vals_ = vals_.items if isinstance(vals_, SArr) else vals_
+            if all(is_scalar(v) and to_rat(v).is_const() for v in vals_) \
+                    and not all(isinstance(v, int) for v in vals_):
+                f = max if name == 'max' else min
+                return Rat.const(f(to_rat(v).constant() for v in vals_))
+            if all(is_scalar(v) for v in vals_) and len(vals_) > 0 and all(
+                    to_rat(v) == to_rat(vals_[0]) for v in vals_):
+                return vals_[0]
         if name in ('max', 'min', 'sum'):
             vals = args[0] if len(args) == 1 else args
             if all(isinstance(v, int) for v in vals):
@@ -1945,4 +1974,7 @@ class Hooks(object):
         return None
 
     def on_name(self, interp, name):
+        return NotImplemented
+
+    def on_subscript(self, interp, obj, idx):
         return NotImplemented
